@@ -1,9 +1,49 @@
-(* C19 - memoization never changes parse results. *)
-From TxV Require Import Core.Base Model.PegSyntax Model.Peg Proofs.PegProofs.
+(* C19 - memoization never changes parse results.
 
-(* Outside the class ctx_constant the property fails in the faithful model (and on the
-   implementation: corpus/C19/probe.json): a rule modifier changes the whitespace mode, the
-   packrat cache is keyed by position only. *)
+   Model: Model/Peg.v ([run g cfg orc memo fuel input]: the Arpeggio interpreter on the parser model
+   dumped from the live textX parser, parameterised by the terminal oracle and the memoization flag).
+
+   Full statement aimed at (C19_memo_safe):
+     forall g in the exact class  { no node sets rule-level ws/skipws, no eolterm repetition, no
+     memoizable node shared between the comment model and the main model, comment model absent
+     or a single terminal },
+     forall cfg orc fuel input, the un-memoized run does not abort ->
+       run g cfg orc true fuel input = run g cfg orc false fuel input.
+   Proved below: the same statement for the sub-class ctx_constant, which additionally excludes
+   grammars whose Comment rule is a single terminal and grammars with unordered groups
+   (proof-technical exclusions: comment_positions would need its own validity invariant; the
+   unordered-group loops are proved for the A0 layer only).  Each of the four semantic exclusions
+   is shown necessary by a refuted theorem with a vm_compute witness that replays on the
+   implementation (corpus/C19). *)
+From TxV Require Import Core.Base Model.PegSyntax Model.Peg Proofs.PegProofs Proofs.PegMemo.
+
+(* For every context-constant grammar, every parser configuration, every terminal oracle, every
+   input and every fuel for which the un-memoized interpreter terminates, the memoized interpreter
+   returns exactly the same outcome: the same parse tree (node ids, positions, lengths, suppress
+   flags) on acceptance, the same error position on rejection. *)
+Theorem C19_memo_safe_partial :
+  forall g cfg orc fuel input,
+    ctx_constant g = true ->
+    not_aborted (run g cfg orc false fuel input) ->
+    run g cfg orc true fuel input = run g cfg orc false fuel input.
+Proof. intros g cfg orc fuel input Hc Hn. exact (memo_safe g input orc Hc cfg fuel Hn). Qed.
+Print Assumptions C19_memo_safe_partial.
+
+(* non-vacuity of the hypotheses: a grammar in the class with backtracking over a shared rule
+   (`Model: xs+=X[','] ';' | xs+=X[','] '.'; X: 'x' | /\d+/;`), accepted `x, 1, x.` and rejected
+   `x, 1, x!` (error position 7), with memoization on *)
+Example C19_memo_safe_nonvacuous :
+  ctx_constant g_ex = true /\
+  accepts (run g_ex c_default (orc_of tbl_ex0) true 100 in_ex0) = true /\
+  run g_ex c_default (orc_of tbl_ex0) true 100 in_ex0 = run g_ex c_default (orc_of tbl_ex0) false 100 in_ex0 /\
+  run g_ex c_default (orc_of tbl_ex1) false 100 in_ex1 = SyntaxErr 7 /\
+  run g_ex c_default (orc_of tbl_ex1) true 100 in_ex1 = SyntaxErr 7.
+Proof. exact example_in_class. Qed.
+Print Assumptions C19_memo_safe_nonvacuous.
+
+(* Outside the class the property fails in the faithful model (and on the implementation):
+   a rule modifier changes the whitespace mode, the packrat cache is keyed by position only.
+   `Model: a=A | b=B; A[noskipws]: x=X 'q'; B: x=X 'r'; X: 'x' 'y';` on `x y r` *)
 Theorem C19_refuted :
   exists g c orc fuel input,
     ctx_constant g = false /\
@@ -11,3 +51,38 @@ Theorem C19_refuted :
     run g c orc true fuel input = SyntaxErr 1.
 Proof. exists g_probe, c_default, (fun _ _ => None), 100, in_probe. exact refuted_probe. Qed.
 Print Assumptions C19_refuted.
+
+(* eolterm: `Model: ('a' X 'q')*[eolterm] 'a' X 'r'; X: 'x' 'y';` on `a x\ny r` *)
+Theorem C19_eolterm_refuted :
+  exists g c orc fuel input,
+    ctx_constant g = false /\
+    accepts (run g c orc false fuel input) = true /\
+    run g c orc true fuel input = SyntaxErr 3.
+Proof. exists g_eol, c_default, (orc_of tbl_eol0), 100, in_eol0. exact refuted_eolterm. Qed.
+Print Assumptions C19_eolterm_refuted.
+
+(* a rule shared between the Comment rule and the main grammar:
+   `Model: ('k' | CB) 'r'; Comment: CL | CB; CL: /\/\/.*?$/; CB: '#' 'x';` on `#// c\n x r` *)
+Theorem C19_comment_shared_refuted :
+  exists g c orc fuel input,
+    ctx_constant g = false /\
+    accepts (run g c orc false fuel input) = true /\
+    run g c orc true fuel input = SyntaxErr 0.
+Proof. exists g_cmt, c_default, (orc_of tbl_cmt0), 100, in_cmt0. exact refuted_comment_shared. Qed.
+Print Assumptions C19_comment_shared_refuted.
+
+(* a Comment rule with two alternatives and no whitespace modifier anywhere:
+   `Model: B 'q' | 'b'; B: /[^;\n]+/ 'x'; Comment: /\/\/.*?$/ | /\/\*(.|\n)*?\*\//;` on `b//\n/**/`
+   is rejected without memoization (comment_positions is consulted while parsing comments, so the
+   block comment at 4 is jumped over) and accepted with it (the Comment rule's own cache entry
+   answers first).  So a memoizable comment model must be excluded from the class. *)
+Theorem C19_comment_model_refuted :
+  exists g c orc fuel input,
+    ctx_constant g = false /\
+    run g c orc false fuel input = SyntaxErr 8 /\
+    accepts (run g c orc true fuel input) = true.
+Proof.
+  exists g_cm2, c_default, (orc_of tbl_cm2), 100, in_cm2.
+  split; [reflexivity | exact refuted_comment_model].
+Qed.
+Print Assumptions C19_comment_model_refuted.
